@@ -147,7 +147,40 @@ def work_helpers(args):
             a._node = node
         if not hasattr(node, "_generate_answer"):
             raise sk.HarnessError("Node._generate_answer no longer exists")
+        def same_attr(a, b):
+            if isinstance(a, list) and isinstance(b, list):
+                return len(a) == len(b) and all(same_attr(x, y) for x, y in zip(a, b))
+            if hasattr(a, "__dict__") and hasattr(b, "__dict__") and not isinstance(a, (str, bytes, int)):
+                return type(a) is type(b) and a.__dict__.keys() == b.__dict__.keys() and all(same_attr(v, b.__dict__[k]) for k, v in a.__dict__.items())
+            return a == b
+
         for label, cls, code, want, kind in registry()[lo:hi]:
+            if kind in ("untyped", "unknown"):
+                # read-only commands: the helpers can only copy attributes, not AVPs; the copies must exist and be equal
+                pis = [rc.grouped(284, [rc.octets(280, f"proxy{i}.example.org".encode()), rc.octets(33, b"state")]) for i in range(3)]
+                for npi in (0, 1, 2, 3):
+                    for with_sess in (False, True):
+                        avps = ([rc.utf8(263, "sess;9")] if with_sess else []) + [rc.octets(264, b"peer.example.org")] + pis[:npi]
+                        wire = rc.enc_msg(code, R | P, 4, 0x1234, 0x5678, avps)
+                        for via in ("node", "auth"):
+                            n += 1
+                            case = {"class": label, "proxy_infos": npi, "session": with_sess, "via": via}
+                            try:
+                                req = Message.from_bytes(wire)
+                                ans = node._generate_answer(None, req) if via == "node" else apps[via].generate_answer(req, result_code=2001)
+                                tag = "node" if via == "node" else "app"
+                                check_header(label, kind, hdr_tuple(req), req, ans, None, f"generate_answer[{tag}]", out, case)
+                                if with_sess and getattr(ans, "session_id", None) != "sess;9":
+                                    out.append(Violation(f"generate_answer[{tag}]:session-id-not-copied:untyped", f"{case}", case))
+                                if npi and not (hasattr(ans, "proxy_info") and same_attr(ans.proxy_info, req.proxy_info)):
+                                    out.append(Violation(f"generate_answer[{tag}]:proxy-info-not-copied:untyped:{npi}",
+                                                         f"{case}: answer has {getattr(ans, 'proxy_info', None)!r}", case))
+                                oh = getattr(ans, "origin_host", None)
+                                if oh != b"local.node.example":
+                                    out.append(Violation(f"generate_answer[{tag}]:origin-host-not-local:untyped", f"{case}: {oh!r}", case))
+                            except Exception as e:
+                                out.append(Violation("generate_answer:raises:untyped", f"{case}: {type(e).__name__}: {e}", case))
+                continue
             if kind != "typed-request" or want is None:
                 continue
             ans_attrs = {d.attr_name: d for d in want.avp_def}
